@@ -296,6 +296,24 @@ let type_recover out =
     | _ -> ()
   done with End_of_file -> ()
 
+(* type-c01: lines "<toks of x> | <toks of SQL(ParseType x)>": the hypotheses of the type round-trip theorem on real data: the tree the model
+   returns for x is well formed (wf_tyb), and its spelling agrees with the tokens the real lexer produced for the printed text, every ">>"
+   read as two closing brackets (same_type_tokensb) *)
+let type_c01 out =
+  let toks_of s = List.map parse_tok (List.filter (fun x -> x <> "") (String.split_on_char ';' (String.trim s))) in
+  try while true do
+    let line = input_line stdin in
+    match String.split_on_char '|' line with
+    | [a; b] ->
+      (match parse_type (toks_of a) with
+       | Ok (t, _) ->
+         if not (wf_tyb t) then Printf.fprintf out "NOT-WF\n"
+         else if same_type_tokensb (zspell t @ [eof_tok]) (unfuse (toks_of b)) then Printf.fprintf out "OK\n"
+         else Printf.fprintf out "DIFF\n"
+       | _ -> Printf.fprintf out "ERR\n")
+    | _ -> Printf.fprintf out "BAD-LINE\n"
+  done with End_of_file -> ()
+
 (* expr-sim: lines "<toks of x> | <toks of y>": the hypothesis of the C16 theorems on two real token lists *)
 let expr_sim out =
   let toks_of s = List.map parse_tok (List.filter (fun x -> x <> "") (String.split_on_char ';' (String.trim s))) in
@@ -420,5 +438,6 @@ let run (args : string list) : bool =
    | ["expr-c01"] -> expr_c01 out; true
    | ["type-model"] -> type_model out; true
    | ["type-recover"] -> type_recover out; true
+   | ["type-c01"] -> type_c01 out; true
    | ["tree-walkmany"] -> tree_walk out 0 0 true; true
    | _ -> false)
